@@ -143,7 +143,8 @@ def revolve(
     single += np.tile(np.arange(per), (2, 1)).T.reshape((-1, 1))
     # remove any zero-area triangle
     # this covers many cases without having to think too much
-    single = single[triangles.area(vertices[single]) > tol.merge]
+    # the last quad refers to the slice after next: wrap it as the final faces are
+    single = single[triangles.area(vertices[single % len(vertices)]) > tol.merge]
 
     # how much to offset each slice
     # note arange multiplied by vertex stride
